@@ -189,7 +189,8 @@ pub enum Op {
     /// set_pingresp_recv_timeout while running (0 disables)
     SetPingresp { ms: u64 },
     /// toggle an automatic-behaviour option while running: 0 auto_pub_response, 1 auto_ping_response,
-    /// 2 auto_map_topic_alias_send, 3 auto_replace_topic_alias_send
+    /// 2 auto_map_topic_alias_send, 3 auto_replace_topic_alias_send, 4 offline publishing re-asserted
+    /// with its current value
     SetAuto { which: u8, on: bool },
     /// transport coalescing: the next frame of the peer shares its buffer with a second frame
     /// (PUBLISH of the given QoS and id; qos 3 = PINGREQ when the peer is a client)
@@ -1496,7 +1497,7 @@ pub fn gen_op(s: &Solo, r: &mut Rng, prof: &GenProfile) -> Op {
                 if r.chance(1, 3) {
                     Op::SetPingresp { ms: *r.pick(&[0u64, 0, 2000, 5000]) }
                 } else if r.chance(1, 3) {
-                    Op::SetAuto { which: r.below(4) as u8, on: r.chance(1, 2) }
+                    Op::SetAuto { which: r.below(5) as u8, on: r.chance(1, 2) }
                 } else if r.chance(1, 2) {
                     Op::Coalesce { qos: *r.pick(&[0u8, 1, 1, 2, 3]), id: r.range(1, 4) as u32 }
                 } else {
